@@ -24,6 +24,7 @@ def run(repo, report, tier):
     report.guard("C19.R4", "log stream", r4_log_stream, repo, report)
     report.guard("C19.R4", "writer layout", r4_writer_layout, repo, report)
     report.guard("C19.R4", "output options as given", r4_options_not_rewritten, repo, report)
+    report.guard("C19.R4", "print calls", r4_prints, repo, report)
     report.trust("dnaio.open(mode='w') without fileformat takes the format from the .name of a file object only if that attribute is a str, otherwise from 'qualities' (dnaio 1.2.4 singleend._open_single/_open_file_or_path)")
     report.trust("dnaio.open(mode='r') with a fileformat does not look at file names")
     report.notes.append("Not decided: codec round trips, multi-member gzip, FASTA/FASTQ record equivalence (library and runtime behaviour).")
@@ -278,6 +279,7 @@ def _r3_input(repo, report, rule):
 def r2_fasta(repo, report):
     fn, rows = _writer_rows(repo, "open_record_writer")
     bad = []
+    unforced = []
     seen_force = False
     for r in rows:
         if r.exit[0] != "return":
@@ -290,6 +292,15 @@ def r2_fasta(repo, report):
             ok = r.valuation.get("truthy:FORCE_FASTA") is True and stdout
             if not ok:
                 bad.append(r.describe()["valuation"])
+        else:
+            # the converse: a writer on standard output - the single path '-' or a missing one - is never returned
+            # unforced when --fasta was given (or without having looked at it)
+            stdout = (r.valuation.get("eq:PATHS[0]:'-'") is True and r.valuation.get("sign:len(PATHS)-1") == 0) or any(k.replace(" ", "") in ("eq:(None):PATHS", "eq:PATHS:(None)", "eq:(None,):PATHS", "eq:PATHS:(None,)") and v is True for k, v in r.valuation.items())
+            if stdout and r.valuation.get("truthy:FORCE_FASTA") is not False:
+                unforced.append(r.describe()["valuation"])
+    report.ob("C19.R2", "OutputFiles.open_record_writer: --fasta reaches every writer on standard output", not unforced, facts={"unforced": unforced[:2]}, loc=repo.loc(fn),
+              expected="a single path that is '-' or missing gets fileformat='fasta' whenever force_fasta is set; the missing path is turned into '-' before the format is decided",
+              why=(f"on {unforced[0]} the writer for standard output is opened without the forced format: --fasta is ignored when no -o is given" if unforced else ""))
     report.ob("C19.R2", "OutputFiles.open_record_writer: --fasta", not bad and seen_force, facts={"forced_outside_stdout": bad[:2]}, expected="fileformat='fasta' is forced only if force_fasta and the single path is '-' (or missing, which means standard output)", loc=repo.loc(fn),
               why="" if not bad else "--fasta also changes the format of a named output file")
     fn2, rows2 = _writer_rows(repo, "open_stdout_record_writer")
@@ -382,6 +393,121 @@ def r4_interleaved(repo, report):
 
 _STDOUT_CAPABLE = ("output", "paired_output", "untrimmed_output", "untrimmed_paired_output", "too_short_output", "too_short_paired_output",
                    "too_long_output", "too_long_paired_output", "rest_file", "info_file", "wildcard_file")
+
+
+# print() sites that write to standard output on purpose, each with the reason it cannot reach a normal run's output
+_DEBUG_PRINTS = {
+    ("adapters", "print_matrices"): "debugging aid, only called under `if self._debug` (--debug given twice)",
+}
+
+
+def r4_prints(repo, report):
+    """Whatever else the program prints - progress, hints, the interrupt notice - must not land on standard output, where
+    the records may be going: every print() outside debugging code names a stream, and that stream cannot be None
+    (print(file=None) writes to standard output)."""
+    from ..repo import enclosing, qualname
+
+    sites = bad = 0
+    problems = []
+    exempt = []
+    for mname, m in sorted(repo.modules.items()):
+        if m.kind != "py":
+            continue
+        for x in ast.walk(m.tree):
+            if not (isinstance(x, ast.Call) and isinstance(x.func, ast.Name) and x.func.id == "print"):
+                continue
+            fn = enclosing(x, (ast.FunctionDef, ast.AsyncFunctionDef))
+            where = f"{m.relpath}:{x.lineno}"
+            # not part of a run: the module's own command line; debugging output
+            par, under_main, under_debug = x, False, False
+            while par is not None:
+                if isinstance(par, ast.If):
+                    t = src(par.test)
+                    under_main |= t.replace('"', "'") == "__name__ == '__main__'"
+                    under_debug |= t.endswith("._debug") or t == "self._debug"
+                par = getattr(par, "_parent", None)
+            if under_main or under_debug or (fn is not None and (mname, qualname(fn)) in _DEBUG_PRINTS):
+                exempt.append(where)
+                continue
+            sites += 1
+            fk = [k for k in x.keywords if k.arg == "file"]
+            if not fk:
+                star = [k for k in x.keywords if k.arg is None]
+                sets = fn is not None and star and any(isinstance(n, ast.Assign) and isinstance(n.targets[0], ast.Subscript) and chain(n.targets[0].value) == chain(star[0].value)
+                                                      and isinstance(n.targets[0].slice, ast.Constant) and n.targets[0].slice.value == "file" and n.lineno < x.lineno for n in ast.walk(fn))
+                if not sets:
+                    problems.append(f"{where}: {src(x)[:50]} names no stream: it writes to standard output")
+                continue
+            v = fk[0].value
+            why = _maybe_none_stream(repo, fn, v, x)
+            if why:
+                problems.append(f"{where}: file={src(v)} {why}")
+    report.saw(call_sites=sites)
+    report.ob("C19.R4", "print() never writes to standard output in a run", not problems, facts={"print_sites": sites, "debug_or_module_main": exempt, "problems": problems[:3]}, loc="src/cutadapt", cases=sites,
+              expected="file=sys.stderr, a local StringIO, `x or sys.stderr`, or an attribute/parameter that is never None",
+              why=(problems[0] + ": with records on standard output ('-o -' or no -o) this text lands between the records" if problems else ""))
+    report.floor("C19.R4", "print sites", sites, 20)
+
+
+def _maybe_none_stream(repo, fn, v, call):
+    """'' if the expression is a stream for sure; else why it may be None / standard output"""
+    from ..repo import enclosing
+
+    t = src(v)
+    if t == "sys.stderr":
+        return ""
+    if t in ("sys.stdout", "sys.__stdout__"):
+        return "is standard output"
+    if isinstance(v, ast.BoolOp) and isinstance(v.op, ast.Or):
+        return _maybe_none_stream(repo, fn, v.values[-1], call)
+    if isinstance(v, ast.IfExp):
+        return _maybe_none_stream(repo, fn, v.body, call) or _maybe_none_stream(repo, fn, v.orelse, call)
+
+    def guarded(name):
+        par = call
+        while par is not None and par is not fn:
+            if isinstance(par, ast.If) and src(par.test) in (name, f"{name} is not None"):
+                return True
+            par = getattr(par, "_parent", None)
+        return False
+
+    def param_default_none(f, pname):
+        a = f.args
+        pos = a.posonlyargs + a.args
+        d = dict(zip([p_.arg for p_ in pos[len(pos) - len(a.defaults):]], a.defaults))
+        d.update({p_.arg: dv for p_, dv in zip(a.kwonlyargs, a.kw_defaults) if dv is not None})
+        ann = next((p_.annotation for p_ in pos + a.kwonlyargs if p_.arg == pname), None)
+        dv = d.get(pname)
+        return (isinstance(dv, ast.Constant) and dv.value is None) or (ann is not None and "Optional" in src(ann))
+
+    if isinstance(v, ast.Name) and fn is not None:
+        binds = [n for n in ast.walk(fn) if isinstance(n, ast.Assign) and any(isinstance(t_, ast.Name) and t_.id == v.id for t_ in n.targets)]
+        if binds:
+            ok = all(isinstance(b.value, ast.Call) and (chain(b.value.func) or "").split(".")[-1] in ("StringIO", "open", "xopen") for b in binds)
+            return "" if ok else "is bound to something that is not known to be a stream"
+        if v.id in [a.arg for a in fn.args.posonlyargs + fn.args.args + fn.args.kwonlyargs]:
+            return "is a parameter that defaults to None (print(file=None) writes to standard output)" if param_default_none(fn, v.id) and not guarded(v.id) else ""
+        outer = enclosing(fn, (ast.FunctionDef,))
+        if outer is not None:
+            return _maybe_none_stream(repo, outer, v, fn)
+        return "is not a local name"
+    if isinstance(v, ast.Attribute) and chain(v) and chain(v).startswith("self."):
+        cls = enclosing(call, (ast.ClassDef,))
+        init = next((n for n in cls.body if isinstance(n, ast.FunctionDef) and n.name == "__init__"), None) if cls is not None else None
+        if init is None:
+            return "is an attribute whose origin is not visible"
+        sets = [n for n in ast.walk(init) if isinstance(n, (ast.Assign, ast.AnnAssign)) and chain(n.targets[0] if isinstance(n, ast.Assign) else n.target) == chain(v) and n.value is not None]
+        if not sets:
+            return "is an attribute that __init__ does not set"
+        for st in sets:
+            val = st.value
+            if isinstance(val, ast.Name) and val.id in [a.arg for a in init.args.args + init.args.kwonlyargs]:
+                if param_default_none(init, val.id) and not guarded(chain(v)):
+                    return f"comes from the constructor parameter '{val.id}', which defaults to None (print(file=None) writes to standard output)"
+            elif isinstance(val, ast.Constant) and val.value is None and not guarded(chain(v)):
+                return "is initialised to None"
+        return ""
+    return "is an expression this rule does not know to be a stream"
 
 
 def r4_log_stream(repo, report):
